@@ -2388,11 +2388,27 @@ func E11FitStroke(c *core.Ctx, r *core.Report) {
 		half := func(e ast.Expr) bool {
 			ok := false
 			ast.Inspect(e, func(m ast.Node) bool {
-				if be, isB := m.(*ast.BinaryExpr); isB && be.Op == token.QUO {
-					if sel, isS := core.Unparen(be.X).(*ast.SelectorExpr); isS && sel.Sel.Name == "StrokeWidth" {
-						if v, isC := core.ConstInt(info, be.Y); isC && v == 2 {
-							ok = true
-						}
+				be, isB := m.(*ast.BinaryExpr)
+				if !isB {
+					return true
+				}
+				isWidth := func(x ast.Expr) bool {
+					sel, isS := core.Unparen(x).(*ast.SelectorExpr)
+					return isS && sel.Sel.Name == "StrokeWidth"
+				}
+				isConst := func(x ast.Expr, want float64) bool {
+					f, isC := constantFloat(core.ConstVal(info, x))
+					tv, has := info.Types[x]
+					return has && tv.Value != nil && isC && f == want
+				}
+				switch be.Op {
+				case token.QUO: // StrokeWidth / 2
+					if isWidth(be.X) && isConst(be.Y, 2) {
+						ok = true
+					}
+				case token.MUL: // StrokeWidth * 0.5, either order
+					if isWidth(be.X) && isConst(be.Y, 0.5) || isWidth(be.Y) && isConst(be.X, 0.5) {
+						ok = true
 					}
 				}
 				return true
@@ -6968,6 +6984,18 @@ func E11WordListMatch(c *core.Ctx, r *core.Report) {
 // leaves through continue executes a statement accepted by hit. A return ends the path without an
 // obligation. The second result is the statement after which the first offending path leaves.
 func cpsMustHit(stmts []ast.Stmt, hit func(ast.Stmt) bool) (bool, ast.Node) {
+	return cpsMustHitOpt(stmts, hit, false)
+}
+
+// cpsMustHitOpt is cpsMustHit; with breakEnds a `break` leaves the statement list under the same
+// obligation as `continue` (the list is the body of a switch case).
+func cpsMustHitOpt(stmts []ast.Stmt, hit func(ast.Stmt) bool, breakEnds bool) (bool, ast.Node) {
+	return cpsMustHitExcuse(stmts, hit, breakEnds, nil)
+}
+
+// cpsMustHitExcuse additionally discharges the obligation on the paths through the body of an if
+// statement accepted by excuse.
+func cpsMustHitExcuse(stmts []ast.Stmt, hit func(ast.Stmt) bool, breakEnds bool, excuse func(*ast.IfStmt) bool) (bool, ast.Node) {
 	var bad ast.Node
 	failed := false
 	var walk func(stmts []ast.Stmt, done bool, last ast.Node, k func(bool, ast.Node))
@@ -6983,7 +7011,7 @@ func cpsMustHit(stmts []ast.Stmt, hit func(ast.Stmt) bool) (bool, ast.Node) {
 		next := func(d bool, l ast.Node) { walk(rest, d, l, k) }
 		switch x := st.(type) {
 		case *ast.BranchStmt:
-			if !done && x.Tok == token.CONTINUE {
+			if !done && (x.Tok == token.CONTINUE || breakEnds && x.Tok == token.BREAK && x.Label == nil) {
 				failed, bad = true, x
 			}
 			return
@@ -6993,7 +7021,7 @@ func cpsMustHit(stmts []ast.Stmt, hit func(ast.Stmt) bool) (bool, ast.Node) {
 			walk(x.List, done, last, next)
 			return
 		case *ast.IfStmt:
-			walk(x.Body.List, done, x, next)
+			walk(x.Body.List, done || excuse != nil && excuse(x), x, next)
 			switch e := x.Else.(type) {
 			case nil:
 				next(done, x)
@@ -8889,4 +8917,325 @@ func E11PercentReference(c *core.Ctx, r *core.Report) {
 	}
 	r.Count("E11.percent-reference-sites", 1)
 	r.Floor("E11.percent-reference-sites", 1)
+}
+
+// E11SumNotOverwritten: a sum that is built up from terms is not overwritten half-way.
+func E11SumNotOverwritten(c *core.Ctx, r *core.Report) {
+	r.Rule("E11.sum-not-overwritten", "text/linebreak.go: a numeric local that collects terms with `v += E` (the demerits of a candidate line: line demerits, flagged-break demerits, fitness demerits, the parent's total) is, between a constant reset and its use, never assigned plainly where an earlier non-constant assignment may precede it — branches of one if/else chain are exclusive. A plain assignment in that position throws away the terms added before it: with the flagged-break term added first and the `else` branch of the penalty chain still assigning, two consecutive flagged breaks are 100 demerits too cheap whenever the second is a forced break, and the breaker returns a breaking that is not the minimum")
+	p := c.MustPkg("text")
+	info := p.TypesInfo
+	n := 0
+	for _, fd := range core.AllFuncDecls(p) {
+		if !strings.HasSuffix(c.Fset.Position(fd.Pos()).Filename, "linebreak.go") {
+			continue
+		}
+		type asg struct {
+			pos   token.Pos
+			kind  string // const, acc, plain
+			node  ast.Node
+			stack []ast.Node
+		}
+		byVar := map[types.Object][]asg{}
+		var stack []ast.Node
+		ast.Inspect(fd.Body, func(m ast.Node) bool {
+			if m == nil {
+				stack = stack[:len(stack)-1]
+				return true
+			}
+			stack = append(stack, m)
+			as, ok := m.(*ast.AssignStmt)
+			if !ok || len(as.Lhs) != len(as.Rhs) {
+				return true
+			}
+			for i, l := range as.Lhs {
+				id, ok := l.(*ast.Ident)
+				if !ok {
+					continue
+				}
+				o := core.ObjOf(info, id)
+				v, ok := o.(*types.Var)
+				if !ok || v.IsField() {
+					continue
+				}
+				if b, ok := v.Type().Underlying().(*types.Basic); !ok || b.Info()&types.IsFloat == 0 {
+					continue
+				}
+				kind := "plain"
+				rhs := core.Unparen(as.Rhs[i])
+				mentionsSelf := false
+				ast.Inspect(rhs, func(k ast.Node) bool {
+					if rid, ok := k.(*ast.Ident); ok && core.ObjOf(info, rid) == o {
+						mentionsSelf = true
+					}
+					return true
+				})
+				switch {
+				case as.Tok == token.ADD_ASSIGN || as.Tok == token.SUB_ASSIGN || mentionsSelf:
+					kind = "acc"
+				case as.Tok != token.ASSIGN && as.Tok != token.DEFINE:
+					kind = "acc"
+				default:
+					if tv, ok := info.Types[rhs]; ok && tv.Value != nil {
+						kind = "const"
+					}
+				}
+				byVar[o] = append(byVar[o], asg{as.Pos(), kind, as, append([]ast.Node{}, stack...)})
+			}
+			return true
+		})
+		exclusive := func(a, b asg) bool {
+			k := 0
+			for k < len(a.stack) && k < len(b.stack) && a.stack[k] == b.stack[k] {
+				k++
+			}
+			if k == 0 || k >= len(a.stack) || k >= len(b.stack) {
+				return false
+			}
+			if lca, ok := a.stack[k-1].(*ast.IfStmt); ok {
+				inBody := func(x asg) bool { return lca.Body == x.stack[k] }
+				return inBody(a) != inBody(b)
+			}
+			return false
+		}
+		var objs []types.Object
+		for o := range byVar {
+			objs = append(objs, o)
+		}
+		sort.Slice(objs, func(i, j int) bool { return objs[i].Pos() < objs[j].Pos() })
+		for _, o := range objs {
+			as := byVar[o]
+			adds := 0
+			for _, a := range as {
+				if a.kind == "acc" {
+					adds++
+				}
+			}
+			if adds == 0 {
+				continue
+			}
+			sort.Slice(as, func(i, j int) bool { return as[i].pos < as[j].pos })
+			n++
+			key := fmt.Sprintf("text.%s|sum %s keeps its terms", core.FuncName(fd), o.Name())
+			bad := ""
+			var badPos token.Pos
+			for i, a := range as {
+				if a.kind != "plain" {
+					continue
+				}
+				for j := i - 1; j >= 0; j-- {
+					if as[j].kind == "const" && !exclusive(as[j], a) {
+						break
+					}
+					if as[j].kind != "const" && !exclusive(as[j], a) {
+						bad = fmt.Sprintf("`%s` overwrites the sum after `%s` may already have contributed", c.Src(a.node), c.Src(as[j].node))
+						badPos = a.pos
+						break
+					}
+				}
+				if bad != "" {
+					break
+				}
+			}
+			if bad == "" {
+				r.OK("E11.sum-not-overwritten", key, c.Pos(as[0].pos), fmt.Sprintf("%d assignments", len(as)))
+			} else {
+				r.Fail("E11.sum-not-overwritten", key, c.Pos(badPos), bad+": the term is lost on that path")
+			}
+		}
+	}
+	r.Count("E11.sums", n)
+	r.Floor("E11.sums", 1)
+}
+
+// E11FactorFromStep: the control-point factor of the arc-to-cubic conversion is that of the actual piece angle.
+func E11FactorFromStep(c *core.Ctx, r *core.Report) {
+	r.Rule("E11.factor-from-step", "ellipseToCubicBeziers and ellipseToQuadraticBeziers cut an arc into n equal pieces of angle Δ = |θ1−θ0|/n and places the control points of each piece along the end tangents at the distance κ(Δ)·|derivative|; κ depends on the angle of the piece actually drawn. The factor that multiplies an ellipseDeriv result (`deriv.Mul(κ)`) is therefore computed from values that depend on both angles returned by ellipseToCenter and on the piece count — followed backwards through the last assignment before each use. A factor computed from the maximal piece angle (a constant quarter turn) is right only for arcs that are multiples of a quarter turn; a 60° wedge bulges 7% of the radius, in ReplaceArcs and in the flattening of every non-circular arc")
+	p := c.MustPkg("")
+	info := p.TypesInfo
+	total := 0
+	for _, fname := range []string{"ellipseToCubicBeziers", "ellipseToQuadraticBeziers"} {
+		total += factorFromStep(c, r, p, info, fname)
+	}
+	r.Count("E11.tangent-factors", total)
+	r.Floor("E11.tangent-factors", 3)
+}
+
+func factorFromStep(c *core.Ctx, r *core.Report, p *packages.Package, info *types.Info, fname string) int {
+	fd := core.MustFuncDecl(p, fname)
+	r.Func("canvas." + fname)
+	type def struct {
+		pos token.Pos
+		rhs ast.Expr
+	}
+	defs := map[types.Object][]def{}
+	var theta [2]types.Object
+	ast.Inspect(fd.Body, func(m ast.Node) bool {
+		as, ok := m.(*ast.AssignStmt)
+		if !ok {
+			return true
+		}
+		if len(as.Rhs) == 1 && len(as.Lhs) == 4 {
+			if call, ok := core.Unparen(as.Rhs[0]).(*ast.CallExpr); ok {
+				if f := core.CalleeOf(info, call); f != nil && f.Name() == "ellipseToCenter" {
+					for k := 0; k < 2; k++ {
+						if id, ok := as.Lhs[2+k].(*ast.Ident); ok {
+							theta[k] = core.ObjOf(info, id)
+						}
+					}
+				}
+			}
+		}
+		if len(as.Lhs) == len(as.Rhs) {
+			for i, l := range as.Lhs {
+				if id, ok := l.(*ast.Ident); ok {
+					defs[core.ObjOf(info, id)] = append(defs[core.ObjOf(info, id)], def{as.Pos(), as.Rhs[i]})
+				}
+			}
+		}
+		return true
+	})
+	if theta[0] == nil || theta[1] == nil {
+		panic(core.Infra(fname + ": the angles returned by ellipseToCenter were not found"))
+	}
+	var closure func(e ast.Expr, at token.Pos, out map[types.Object]bool, depth int)
+	closure = func(e ast.Expr, at token.Pos, out map[types.Object]bool, depth int) {
+		if depth > 12 {
+			return
+		}
+		ast.Inspect(e, func(m ast.Node) bool {
+			id, ok := m.(*ast.Ident)
+			if !ok {
+				return true
+			}
+			o := core.ObjOf(info, id)
+			if o == nil || out[o] && len(defs[o]) == 0 {
+				return true
+			}
+			out[o] = true
+			var best *def
+			for i := range defs[o] {
+				if d := &defs[o][i]; d.pos < at && (best == nil || d.pos > best.pos) {
+					best = d
+				}
+			}
+			if best != nil {
+				closure(best.rhs, best.pos, out, depth+1)
+			}
+			return true
+		})
+	}
+	n := 0
+	ast.Inspect(fd.Body, func(m ast.Node) bool {
+		call, ok := m.(*ast.CallExpr)
+		if !ok || len(call.Args) != 1 {
+			return true
+		}
+		se, ok := call.Fun.(*ast.SelectorExpr)
+		if !ok || se.Sel.Name != "Mul" {
+			return true
+		}
+		// the receiver derives from ellipseDeriv
+		recvCl := map[types.Object]bool{}
+		closure(se.X, call.Pos(), recvCl, 0)
+		fromDeriv := false
+		ast.Inspect(se.X, func(k ast.Node) bool {
+			if cl, ok := k.(*ast.CallExpr); ok {
+				if f := core.CalleeOf(info, cl); f != nil && f.Name() == "ellipseDeriv" {
+					fromDeriv = true
+				}
+			}
+			return true
+		})
+		for o := range recvCl {
+			for _, d := range defs[o] {
+				ast.Inspect(d.rhs, func(k ast.Node) bool {
+					if cl, ok := k.(*ast.CallExpr); ok {
+						if f := core.CalleeOf(info, cl); f != nil && f.Name() == "ellipseDeriv" {
+							fromDeriv = true
+						}
+					}
+					return true
+				})
+			}
+		}
+		if !fromDeriv {
+			return true
+		}
+		n++
+		key := fmt.Sprintf("canvas.%s|tangent factor #%d depends on the piece angle", fname, n)
+		cl := map[types.Object]bool{}
+		closure(call.Args[0], call.Pos(), cl, 0)
+		if cl[theta[0]] && cl[theta[1]] {
+			r.OK("E11.factor-from-step", key, c.Pos(call.Pos()), types.ExprString(call.Args[0]))
+		} else {
+			r.Fail("E11.factor-from-step", key, c.Pos(call.Pos()), "the factor `"+types.ExprString(call.Args[0])+"` applied to the end tangent does not depend on the arc's two angles: it is the factor of a fixed piece angle, not of the pieces this arc is cut into, so every arc that is not a multiple of that angle bulges")
+		}
+		return true
+	})
+	return n
+}
+
+// E11StrokeSettleRule: the offset curves of a stroke are settled with the rule of their orientation.
+func E11StrokeSettleRule(c *core.Ctx, r *core.Report) {
+	r.Rule("E11.stroke-settle-rule", "Path.Stroke removes the loops that the raw offset curves form at sharp or curved corners by settling each curve with an orientation-signed fill rule: the curves of a counter-clockwise (or open) sub-path wind positively where they belong to the stroke and the parasitic loops wind negatively, so they are settled with Positive; for a clockwise sub-path everything is mirrored and both curves are settled with Negative. Every Settle call of Stroke takes Positive when it is reached with `CCW()` true (or outside the orientation test) and Negative when `CCW()` is false; NonZero or EvenOdd keep the loops of the other sign, which are then cut out of the stroke as holes next to the corners")
+	p := c.MustPkg("")
+	info := p.TypesInfo
+	fd := core.MustFuncDecl(p, "Path.Stroke")
+	r.Func("canvas.Path.Stroke")
+	n := 0
+	var walk func(node ast.Node, ccw tri)
+	walk = func(node ast.Node, ccw tri) {
+		ast.Inspect(node, func(m ast.Node) bool {
+			switch x := m.(type) {
+			case *ast.IfStmt:
+				isCCW, neg := false, false
+				cond := core.Unparen(x.Cond)
+				if u, ok := cond.(*ast.UnaryExpr); ok && u.Op == token.NOT {
+					cond, neg = core.Unparen(u.X), true
+				}
+				if call, ok := cond.(*ast.CallExpr); ok {
+					if f := core.CalleeOf(info, call); f != nil && f.Name() == "CCW" {
+						isCCW = true
+					}
+				}
+				if !isCCW {
+					return true
+				}
+				t, e := tTrue, tFalse
+				if neg {
+					t, e = tFalse, tTrue
+				}
+				walk(x.Body, t)
+				if x.Else != nil {
+					walk(x.Else, e)
+				}
+				return false
+			case *ast.CallExpr:
+				f := core.CalleeOf(info, x)
+				if f == nil || core.QualifiedCallee(f) != core.Module+".Path.Settle" || len(x.Args) != 1 {
+					return true
+				}
+				n++
+				want := "Positive"
+				where := "a counter-clockwise or open sub-path"
+				if ccw == tFalse {
+					want, where = "Negative", "a clockwise sub-path"
+				}
+				key := fmt.Sprintf("canvas.Path.Stroke|Settle #%d uses the rule of the sub-path's orientation", n)
+				got := core.ConstName(info, x.Args[0])
+				if got == "" {
+					got = types.ExprString(x.Args[0])
+				}
+				if got == want {
+					r.OK("E11.stroke-settle-rule", key, c.Pos(x.Pos()), want)
+				} else {
+					r.Fail("E11.stroke-settle-rule", key, c.Pos(x.Pos()), fmt.Sprintf("the offset curve of %s is settled with %s, want %s: the loops the offset forms at corners have the opposite winding and are kept, so they are cut out of the stroke", where, got, want))
+				}
+			}
+			return true
+		})
+	}
+	walk(fd.Body, tUnknown)
+	r.Count("E11.stroke-settles", n)
+	r.Floor("E11.stroke-settles", 5)
 }
